@@ -34,7 +34,35 @@ ASKERS = ['alice', 'bob', 'erin', 'me']
 TICKETS = [0, 1, 7, 12345, 4294967295]
 
 
+def extras(ev):
+    return ev[-1] if isinstance(ev[-1], dict) else {}
+
+
 def apply_event(rig, ev):
+    """Returns a cleanup callable (run after the observation).  A search event may carry
+    {'fault': c} (the write to child c fails in drain: connection reset) or {'slow': [c, ...]}
+    (these children do not read: drain() of their connection blocks during this step)."""
+    from aioslsk.protocol import messages as M
+    x = extras(ev)
+    if x:
+        ev = ev[:-1]
+        if 'fault' in x:
+            rig.drain_fault(x['fault'], True)
+        for c in x.get('slow', []):
+            rig.child_hold(c)
+        _apply(rig, ev)
+
+        def cleanup():
+            if 'fault' in x:
+                rig.drain_fault(x['fault'], False)
+            for c in x.get('slow', []):
+                rig.child_release(c)
+        return cleanup
+    _apply(rig, ev)
+    return lambda: None
+
+
+def _apply(rig, ev):
     from aioslsk.protocol import messages as M
     k = ev[0]
     if k == 'SS':
@@ -67,6 +95,8 @@ def is_search(ev):
 
 def search_fields(ev):
     """(carrier, conn, code_ok, user, ticket, query, expected unknown)"""
+    if isinstance(ev[-1], dict):
+        ev = ev[:-1]
     if ev[0] == 'SS':
         return 'SS', None, True, ev[2], ev[3], ev[4], ev[1]
     if ev[0] == 'DS':
@@ -96,13 +126,22 @@ def observe(rig, ev, closed):
     return o, closed
 
 
+def late_writes(rig):
+    """what is written only after the slow children of this step read again (must be nothing)"""
+    late = {c: m for c, m in ((c, rig.conn_new(c)) for c in sorted(rig.eps)) if m}
+    reps = {a: r for a, r in ((a, rig.asker_new(a)) for a in ASKERS) if r}
+    return {'conn': late, 'replies': reps} if (late or reps) else {}
+
+
 def run_impl(events):
     rig = new_rig()
     try:
         obs, closed = [], []
         for ev in events:
-            apply_event(rig, ev)
+            cleanup = apply_event(rig, ev)
             o, closed = observe(rig, ev, closed)
+            cleanup()
+            o['late'] = late_writes(rig)
             obs.append(o)
         return obs
     finally:
@@ -115,8 +154,10 @@ def gen_and_run(rng, n, style):
     next_c = [1]
 
     def do(ev):
-        apply_event(rig, ev)
+        cleanup = apply_event(rig, ev)
         o, cl = observe(rig, ev, closed)
+        cleanup()
+        o['late'] = late_writes(rig)
         closed[:] = cl
         events.append(ev)
         obs.append(o)
@@ -124,7 +165,7 @@ def gen_and_run(rng, n, style):
         if style != 'nologin':
             do(['SI'])
         # build a tree shape: parent (maybe), candidates, 0..3 children
-        nchild = rng.choice([0, 1, 2, 3, 3])
+        nchild = rng.choice([0, 1, 2, 3, 3]) if style != 'faults' else rng.choice([2, 3, 3])
         if rng.random() < 0.75:
             c = next_c[0]; next_c[0] += 1
             do(['PI', c, rng.choice(c13.PEER_NAMES), True])
@@ -149,14 +190,22 @@ def gen_and_run(rng, n, style):
             u = rng.choice(ASKERS if style != 'own' else ['me', 'me', 'alice'])
             t = rng.choice(TICKETS)
             q = rng.choice(QUERIES)
+            kids = [c for c in st['children'] if c in live]
+            x = []
+            if len(kids) >= 2 and rng.random() < (0.6 if style == 'faults' else 0.15):
+                # a write fault on one child (not the last one), or children that do not read, during the fan-out
+                if rng.random() < 0.5:
+                    x = [{'fault': rng.choice(kids[:-1])}]
+                else:
+                    x = [{'slow': sorted(rng.sample(kids[:-1], rng.randrange(1, len(kids))))}]
             if r < 0.22:
-                do(['SS', rng.choice([0, 49, 5]), u, t, q])
+                do(['SS', rng.choice([0, 49, 5]), u, t, q] + x)
             elif r < 0.55 and live:
                 src = st['parent'] if (st['parent'] is not None and rng.random() < 0.8) else rng.choice(live)
-                do(['DS', src, rng.choice([49, 0]), u, t, q])
+                do(['DS', src, rng.choice([49, 0]), u, t, q] + x)
             elif r < 0.72 and live:
                 src = st['parent'] if (st['parent'] is not None and rng.random() < 0.8) else rng.choice(live)
-                do(['LS', src, rng.choice([3, 3, 3, 4, 93]), rng.choice([0, 49]), u, t, q])
+                do(['LS', src, rng.choice([3, 3, 3, 4, 93]), rng.choice([0, 49]), u, t, q] + x)
             elif r < 0.80:
                 c = next_c[0]; next_c[0] += 1
                 do(['PI', c, rng.choice(c13.PEER_NAMES), rng.random() < 0.3])
@@ -191,6 +240,9 @@ def monitor(events, obs):
     for i, (ev, o) in enumerate(zip(events, obs)):
         qs = {c: [m for m in msgs if m[0] == 'Q'] for c, msgs in o['conn'].items()}
         qs = {c: m for c, m in qs.items() if m}
+        if o.get('late'):
+            add('search-delivered-only-after-slow-child-read', 'messages were written only after the slow children of this step read again: '
+                'the fan-out to one child waited for another child', {'step': i, 'event': ev, 'late': o['late']})
         if not is_search(ev):
             if qs:
                 add('search-sent-without-request', 'a search request was written although none arrived', {'step': i, 'event': ev, 'sent': qs})
@@ -266,7 +318,10 @@ def coq_cases(cases):
     for idx, (events, obs) in enumerate(cases):
         K = max([e[1] for e in events if e[0] == 'PI'] + [0]) + 1
         evs, os_ = [], []
+        prev = None
         for ev, o in zip(events, obs):
+            o_model = o
+            extra_close = []
             if is_search(ev):
                 carrier, src, code_ok, u, t, q, unk = search_fields(ev)
                 key = (name_id(u), qid(q))
@@ -279,17 +334,28 @@ def coq_cases(cases):
                     evs.append(f'DistSearch {ev[1]}%nat {ev[2]}%Z {name_id(u)}%nat {t}%Z {qid(q)}%nat')
                 else:
                     evs.append(f'LegacySearch {ev[1]}%nat {ev[2]}%Z {ev[3]}%Z {name_id(u)}%nat {t}%Z {qid(q)}%nat')
+                if o['closed']:
+                    # a write fault closed a child during the fan-out: for the model this is the search (tree unchanged,
+                    # the request was written to every child) followed by the loss of that connection
+                    fc = extras(ev).get('fault')
+                    if o['closed'] != [fc] or prev is None:
+                        raise BrokenTie('correspondence:C14', f'connections closed during a search step: {o["closed"]} (fault injected on {fc})')
+                    o_model = dict(prev, srv=[], conn=o['conn'], closed=[], replies=o['replies'])
+                    extra_close = [(f'Tree (ConnClosed {fc}%nat)', dict(o, conn={}, replies={}))]
             else:
                 evs.append(f'Tree ({c13.ev_coq(ev)})')
-            reps = []
-            for a in sorted(o['replies']):
-                for r in o['replies'][a]:
-                    if 'other' in r:
-                        raise BrokenTie('correspondence:C14', f'unexpected message to asker: {r}')
-                    reps.append(f'mkReply {name_id(a)}%nat {r["ticket"]}%Z {name_id(r["user"])}%nat '
-                                f'{listlit(str(x) + "%nat" for x in sorted(iid(f) for f in r["visible"]))} '
-                                f'{listlit(str(x) + "%nat" for x in sorted(iid(f) for f in r["locked"]))}')
-            os_.append(f'mkObs14 ({c13.obs_coq(o, qid)}) {listlit(reps)}')
+            for om in [o_model] + [x[1] for x in extra_close]:
+                reps = []
+                for a in sorted(om['replies']):
+                    for r in om['replies'][a]:
+                        if 'other' in r:
+                            raise BrokenTie('correspondence:C14', f'unexpected message to asker: {r}')
+                        reps.append(f'mkReply {name_id(a)}%nat {r["ticket"]}%Z {name_id(r["user"])}%nat '
+                                    f'{listlit(str(x) + "%nat" for x in sorted(iid(f) for f in r["visible"]))} '
+                                    f'{listlit(str(x) + "%nat" for x in sorted(iid(f) for f in r["locked"]))}')
+                os_.append(f'mkObs14 ({c13.obs_coq(om, qid)}) {listlit(reps)}')
+            evs.extend(x[0] for x in extra_close)
+            prev = o
         rows.append(f' ({idx}%nat, {K}%nat, {listlit(evs)},\n  {listlit(os_)})')
     nl = lambda xs: listlit(f'{x}%nat' for x in xs)
     tab = listlit(f'(({u}%nat, {q}%nat), ({nl(v)}, {nl(l)}))' for (u, q), (v, l) in sorted(table.items()))
@@ -362,7 +428,7 @@ def run(run: Run):
             run.add_finding(Finding(k, what, {'events': evs, 'detail': detail}))
 
     n_hist = 150 if run.tier == 'quick' else 900
-    styles = ['plain', 'own', 'f10', 'plain', 'session', 'plain', 'own']
+    styles = ['plain', 'own', 'faults', 'f10', 'plain', 'session', 'faults', 'plain', 'own']
     cases = []
     for i in range(n_hist):
         style = styles[i % len(styles)]
@@ -396,9 +462,17 @@ def run(run: Run):
                 nbad += 1
                 events, obs = cases[k * shard + idx]
                 if nbad <= 2:
+                    # model steps: one per event, plus one per connection closed by an injected write fault
+                    k2 = step
+                    for j, (e, o) in enumerate(zip(events, obs)):
+                        if j >= k2:
+                            break
+                        if is_search(e) and o['closed']:
+                            k2 -= 1
+                    k2 = min(max(k2, 0), len(events) - 1)
                     run.add_broken('correspondence:C14 model(step14) vs DistributedNetwork+SearchManager',
-                                   f'history {events} diverges at event #{step} {events[step]}: impl conn={obs[step]["conn"]} '
-                                   f'replies={obs[step]["replies"]} oracle={obs[step].get("oracle")} children={obs[step]["children"]}')
+                                   f'history {events} diverges at event #{k2} {events[k2]}: impl conn={obs[k2]["conn"]} '
+                                   f'replies={obs[k2]["replies"]} oracle={obs[k2].get("oracle")} children={obs[k2]["children"]} closed={obs[k2]["closed"]}')
         run.cov['traces_validated_against_impl'] = len(cases) - nbad
     except BrokenTie as e:
         run.add_broken(e.obligation, e.detail)
